@@ -321,6 +321,18 @@ impl BufPolicy for RecPolicy {
         };
         let mut log = self.log.borrow_mut();
         log.calls.push((self.generation, current_size, ans));
+        if let Some(a) = ans {
+            if a <= current_size {
+                // every policy of the harness wraps one of the crate's policies or adds a positive
+                // constant: a non-larger size comes from a built-in policy and makes the readers spin
+                log.budget_tripped = true;
+                drop(log);
+                panic!(
+                    "{} the policy returned {} for the current size {} (the reader would ask again forever)",
+                    BUDGET_MSG, a, current_size
+                );
+            }
+        }
         if log.calls.len() > log.budget {
             log.budget_tripped = true;
             drop(log);
